@@ -40,6 +40,9 @@ type FileTruth struct {
 	Anon     map[string]bool
 	Preamble int
 	Preambles []string // the CgoPreamble texts, in the order given
+	// EarlierSeen: paths that appeared in an earlier output produced with this File (a fragment
+	// rendered with it, an earlier File.Render): C08 promises the block keeps declaring them
+	EarlierSeen map[string]bool
 	Prefix   string
 	Pool     []string
 }
@@ -306,7 +309,7 @@ func checkImports(t *FileTruth, src string) []ImportProblem {
 		case s.path == "C" && t.Preamble > 0:
 		case s.path == "C" && t.Anon["C"]:
 		default:
-			if !referenced[s.path] {
+			if !referenced[s.path] && !t.EarlierSeen[s.path] {
 				add("C04", "unused-import", fmt.Sprintf("path %q imported but never referenced in the output", s.path))
 			}
 		}
